@@ -68,7 +68,8 @@ int main()
                   }
                }
                auto name = "p" + std::to_string(i);
-               auto spelling = "x" + std::to_string(i % 3);
+               // (in every other list the second and third parameter are UNNAMED: they share the empty identifier, as in `f(int, int)`)
+               auto spelling = ((i / 3) % 2 == 1 and i % 3 != 0) ? std::string() : "x" + std::to_string(i % 3);
                auto* p = add(lx.get_identifier(util::word_view(reinterpret_cast<const char8_t*>(spelling.data()), spelling.size())), lx.int_type());
                if (i % 4 == 1) {
                   auto d = "default" + std::to_string(i);
